@@ -168,7 +168,12 @@ class Impl:
     def execute(self, sub, bound):
         return self.execute_seq([sub], bound)[0]
 
-    def execute_seq(self, subs, bound):
+    def execute_rec(self, sub, bound, script, cap=5):
+        """Run on a RECORDING subclass of the real Executor (gate trace with register values, scripted
+        measurement outcomes, qalloc/qfree, ret_reg/ret_arr).  -> observation with 'trace' and 'um'"""
+        return self.execute_seq([sub], bound, script=list(script), cap=cap)[0]
+
+    def execute_seq(self, subs, bound, script=None, cap=5):
         """Run the assembled subroutines one after the other on ONE application of a fresh real Executor
         (registers, arrays and shared memory persist).  -> one observation per executed subroutine; stops
         after the first one that does not halt."""
@@ -199,10 +204,46 @@ class Impl:
                 # the base class would spin forever waiting for the network stack
                 raise Blocked()
 
+            # ---- recording (only the documented extension points and two bookkeeping methods are wrapped)
+            def _do_single_qubit_instr(s2, instr, subroutine_id, address):
+                s2.trace.append(["gate", instr.mnemonic, [], [address]])
+
+            def _do_single_qubit_rotation(s2, instr, subroutine_id, address, angle):
+                s2.trace.append(["gate", instr.mnemonic, [instr.angle_num.value, instr.angle_denom.value], [address]])
+
+            def _do_two_qubit_instr(s2, instr, subroutine_id, address1, address2):
+                s2.trace.append(["gate", instr.mnemonic, [], [address1, address2]])
+
+            def _do_controlled_qubit_rotation(s2, instr, subroutine_id, address1, address2, angle):
+                s2.trace.append(["gate", instr.mnemonic, [instr.angle_num.value, instr.angle_denom.value],
+                                 [address1, address2]])
+
+            def _do_meas(s2, subroutine_id, q_address):
+                outcome = s2.script.pop(0) if s2.script else 0
+                s2.trace.append(["meas", q_address, outcome])
+                return outcome
+
+            def _allocate_physical_qubit(s2, subroutine_id, virtual_address, physical_address=None):
+                r = super()._allocate_physical_qubit(subroutine_id, virtual_address, physical_address)
+                s2.trace.append(["alloc", virtual_address])
+                return r
+
+            def _free_physical_qubit(s2, subroutine_id, address):
+                yield from super()._free_physical_qubit(subroutine_id, address)
+                s2.trace.append(["free", address])
+
+            def _update_shared_memory(s2, app_id, entry, value):
+                super()._update_shared_memory(app_id, entry, value)
+                if isinstance(entry, self.operand.Register):
+                    s2.trace.append(["retreg", entry.name.value, entry.index, value])
+                elif isinstance(entry, self.operand.Address):
+                    s2.trace.append(["retarr", entry.address, list(value)])
+
         self.SMM.reset_memories()
         ex = Bounded()
         ex._logger.disabled = True
-        ex.init_new_application(app_id=0, max_qubits=5)
+        ex.trace, ex.script = [], list(script or [])
+        ex.init_new_application(app_id=0, max_qubits=cap)
         out = []
         for sub in subs:
             ex.steps, ex.fault_line = 0, None
@@ -234,7 +275,8 @@ class Impl:
             sharrs = sorted([a, list(l)] for a, l in sm._arrays._arrays.items())
             alias = sorted(a for a, l in sm._arrays._arrays.items() if app_arrays.get(a) is l)
             out.append(dict(kind=kind, line=line, regs=regs, arr=arrs, shreg=shregs, sharr=sharrs, alias=alias,
-                            steps=ex.steps))
+                            steps=ex.steps, trace=[list(e) for e in ex.trace],
+                            um=[x is not None for x in ex._qubit_unit_modules[0]]))
             if kind != 0:
                 break
         return out
@@ -490,6 +532,44 @@ def write_acase_file(path, fname, cases):
         f.write(CASE_HEADER)
         f.write("Definition cases : list acase :=\n [" + ";\n  ".join(coq_acase(c) for c in cases) + "].\n")
         f.write(f"Eval vm_compute in (codes (check_acase gen_params gen_banks gen_ginstrs gen_{fname}) cases).\n")
+
+
+def coq_event(e):
+    k = e[0]
+    if k == "gate":
+        return f"EvGate {cstr(e[1])} {lst(z(x) for x in e[2])} {lst(z(x) for x in e[3])}"
+    if k == "meas":
+        return f"EvMeas {z(e[1])} {z(e[2])}"
+    if k == "alloc":
+        return f"EvAlloc {z(e[1])}"
+    if k == "free":
+        return f"EvFree {z(e[1])}"
+    if k == "retreg":
+        return f"EvRetReg ({z(e[1])}, {z(e[2])}) {z(e[3])}"
+    if k == "retarr":
+        return f"EvRetArr {z(e[1])} {lst(coq_oz(v) for v in e[2])}"
+    raise ValueError(e)
+
+
+def coq_qobs(o):
+    if o is None:
+        return "None"
+    inner = coq_obs(o)[len("(Some "):-1]
+    um = lst("true" if x else "false" for x in o["um"])
+    return f"(Some (mkQO {inner} {lst(coq_event(e) for e in o['trace'])} {um}))"
+
+
+def write_qcase_file(path, fname, cases):
+    with open(path, "w") as f:
+        f.write(CASE_HEADER.replace("Lang.AsmCheck.", "Lang.AsmCheck Lang.AsmSemQ Lang.AsmQCheck."))
+        items = []
+        for c in cases:
+            lines = "None" if c["lines"] is None else f"(Some {lst(cstr(l) for l in c['lines'])})"
+            prog = lst(coq_cmd(x) for x in (c["prog"] if c["lines"] is None else []))
+            items.append(f"mkQC {lines} {prog} {coq_outcome(c['out'])} {c['cap']}%nat {lst(z(x) for x in c['script'])} "
+                         f"{c['fuel']}%nat {coq_qobs(c['obs'])}")
+        f.write("Definition cases : list qcase :=\n [" + ";\n  ".join(items) + "].\n")
+        f.write(f"Eval vm_compute in (codes (check_qcase gen_params gen_banks gen_ginstrs gen_{fname}) cases).\n")
 
 
 def write_scase_file(path, fname, cases):
